@@ -47,4 +47,13 @@ def queries(tier):
                             bounds="%s buffer, one %s; %s%s" % ("shared (2 handles)" if sh else "private", op, bd,
                                                                "; the k-th constructor call (k symbolic 0..5) fails" if cf else ""),
                             outside="more than %d initial elements; element sizes other than 4; positions above 5 / lengths above 3 elements; histories (one operation per query)" % n0))
+    # a shared buffer that needs a second allocation page (17 elements = 68 > 64 data bytes): the private copy must hold all of them
+    for (op, p, l) in (("ARRAY_SLICE", 0, 1), ("ARRAY_INSERT", 1, 1)) if tier == "quick" else (("ARRAY_SLICE", 0, 1), ("ARRAY_SLICE", 16, 1), ("ARRAY_INSERT", 1, 1), ("ARRAY_SET", 1, 1), ("ARRAY_RESERVE", 1, 1)):
+        dd = {"OP": "OP_" + op, "SHARED": 1, "N0MAX": 17, "N0FIX": 17, "NTAG": 40, "CTOR_FAIL": 0, "POS_EL": p, "LEN_EL": l}
+        qs.append(Q("typed_%s_shared_2pages_p%d_l%d" % (op.lower(), p, l), "C05/typed.c", units=ARRAY_UNITS, harness_defines=dd, unwind_default=20,
+                    fp=BUF_FP, flags=["--memory-leak-check", "--max-field-sensitivity-array-size", "400"],
+                    stubs=["libc.c", "malloc_pages.c", "libc_loops.c"], timeout=600,
+                    unwind={"check_buffer": 42, "count_live": 42, "harness": 42, "memcpy": 90, "memmove": 90, "memset": 90},
+                    bounds="shared (2 handles) buffer of 17 live elements (second 128-byte allocation page), one %s at element %d, length %d; source/no-source, traits mode symbolic" % (op, p, l),
+                    outside="see the single-page queries"))
     return qs
